@@ -194,12 +194,9 @@ Section DIEs.
         else (mk_di_state c1 (st_dies st), Err EDwarf)
     end.
 
-  (* a history of queries on one DWARFInfo object *)
-  Inductive di_op := OpContaining (refaddr : Z) | OpAt (offset : Z) | OpDie (cu_ofs die_ofs : Z).
-  Inductive di_answer := ACU (r : res cu) | ADIE (r : res D).
-
+  (* a history of queries on one DWARFInfo object (di_op, di_answer: Spec/C13Spec.v) *)
   Definition di_step (le : bool) (stream : list Z) (size : Z) (st : di_state) (o : di_op)
-    : di_state * di_answer :=
+    : di_state * di_answer D :=
     match o with
     | OpContaining r =>
         let '(c1, a) := get_CU_containing le stream size (st_cus st) r in
@@ -213,7 +210,7 @@ Section DIEs.
     end.
 
   Fixpoint di_run (le : bool) (stream : list Z) (size : Z) (st : di_state) (h : list di_op)
-    : di_state * list di_answer :=
+    : di_state * list (di_answer D) :=
     match h with
     | [] => (st, [])
     | o :: r =>
